@@ -106,10 +106,19 @@ func (fs *FS) Mark(note string) {
 func (fs *FS) FooterImage(n int) []byte {
 	fs.mu.Lock()
 	defer fs.mu.Unlock()
+	// Only footers of the file that holds the newest footer: an image of a
+	// footer of an *earlier* file can land at the very offset it was written
+	// at in that file, which makes it a perfect forgery (every framing field
+	// consistent) - the format has no checksum to tell it from a real footer.
+	file := ""
 	for i := len(fs.Trace) - 1; i >= 0; i-- {
 		op := fs.Trace[i]
+		if file != "" && op.Name != file {
+			continue
+		}
 		if op.Kind == "write" && op.Err == "" && len(op.Data) > 2*len(moss.StoreMagicBeg) &&
 			bytes.HasPrefix(op.Data, moss.StoreMagicBeg) && bytes.HasPrefix(op.Data[len(moss.StoreMagicBeg):], moss.StoreMagicBeg) {
+			file = op.Name
 			if n == 0 {
 				return append([]byte{}, op.Data...)
 			}
